@@ -56,6 +56,23 @@ impl Cluster {
         let members = Members::new(names.clone(), sc.stakes.clone());
         let honest: Vec<bool> = (0..sc.n).map(|i| sc.honest(i)).collect();
         let obs = Arc::new(Mutex::new(Observer::new(members.clone(), honest)));
+        crate::monitors_batch::reset(sc.n);
+        {
+            let mut o = obs.lock().unwrap();
+            o.ext.params = sc.params.clone();
+            o.ext.bounds = sc.bounds.clone();
+            o.ext.profile = sc.profile.clone();
+            o.ext.seal_slack_us = 2 * sc.net.connect_lat_us.1 + 2 * sc.net.base_lat_us.1 + 20_000;
+            for r in &sc.net.rules {
+                if r.label == "crash" {
+                    for i in 0..sc.n {
+                        if r.src == crate::net::bit(i) {
+                            o.ext.crashed[i] = Some(r.t0_us);
+                        }
+                    }
+                }
+            }
+        }
 
         // Store-write tap: the path ends in "db-<i>".
         {
@@ -142,21 +159,19 @@ impl Cluster {
         self.obs.lock().unwrap().probe("boot");
     }
 
+    /// Transaction content: empty; 1..=8 bytes: the low bytes of the uid (the generator keeps
+    /// them unique); 9 bytes and more: first byte, 8-byte uid, deterministic padding.
     pub fn tx_bytes(len: usize, first: u8, uid: u64) -> Vec<u8> {
-        let mut v = Vec::with_capacity(len);
-        if len > 0 {
-            v.push(first);
+        if len <= 8 {
+            return uid.to_le_bytes()[..len].to_vec();
         }
-        let id = uid.to_be_bytes();
+        let mut v = Vec::with_capacity(len);
+        v.push(first);
+        v.extend_from_slice(&uid.to_be_bytes());
         let mut k = 0u64;
         while v.len() < len {
-            let i = v.len() - 1;
-            if i < 8 {
-                v.push(id[i]);
-            } else {
-                k += 1;
-                v.push((mix(&[uid, k]) & 0xff) as u8);
-            }
+            k += 1;
+            v.push((mix(&[uid, k]) & 0xff) as u8);
         }
         v
     }
